@@ -1,6 +1,6 @@
 SPECIFICATION HSpec
 CONSTANTS
-  NObs = 3
+  NObs = 4
   NSel = 2
   NDer = 2
   Ranks = {1,2,3}
